@@ -23,7 +23,7 @@ APIS = ['str', 'tuple', 'list', 'text', 'block', 'block-multi', 'files_and_bindi
 ONLINE = {'which': ['bind'], 'foreign': ['C01', 'C05', 'C07', 'C10', 'C12', 'C13', 'C20'], 'n': {'quick': 40, 'thorough': 600}}
 REQUIRED_BUCKETS = (['class:' + c for c in CLASSES] + ['api:' + a for a in APIS] + ['shape:fn', 'shape:init', 'shape:new', 'shape:method',
                     'verdict:accepted', 'verdict:rejected', 'scoped', 'accepted-then-injected', 'rejected-then-not-injected', 'varkw-with-denylist',
-                    'special:reregister-with-denylist', 'special:reregister-interactive', 'special:decorated-function', 'special:two-hooks-second-rejected', 'special:dynamic-method-keeps-class-lists', 'special:list-given-as-iterator', 'special:dynamic-method-bare-name'])
+                    'special:reregister-with-denylist', 'special:reregister-interactive', 'special:decorated-function', 'special:two-hooks-second-rejected', 'special:dynamic-method-keeps-class-lists', 'special:list-given-as-iterator', 'special:dynamic-method-bare-name', 'special:method-of-configurable-decorated-class'])
 ORACLE_COUNTERS = ['oracle_evals', 'attempts']
 _S = {'plan': None}
 
@@ -56,7 +56,7 @@ def finish(ctx):
 def iter_cases(ctx, rng, n):
   for i in range(n):
     if i % 9 == 8:
-      yield {'special': rng.choice(['reregister-with-denylist', 'reregister-interactive', 'decorated-function', 'two-hooks-second-rejected', 'dynamic-method-keeps-class-lists', 'dynamic-method-bare-name',
+      yield {'special': rng.choice(['reregister-with-denylist', 'reregister-interactive', 'decorated-function', 'two-hooks-second-rejected', 'dynamic-method-keeps-class-lists', 'dynamic-method-bare-name', 'method-of-configurable-decorated-class',
                                           'list-given-as-iterator']),
              'api': rng.choice(['str', 'tuple', 'text', 'block']), 'scope': rng.choice(['', 'sc']), 'spelling': rng.choice(['short', 'mid', 'full'])}
       continue
@@ -257,6 +257,24 @@ def run_special(ctx, case):
       ctx.check(snap.full(gin) == before, 'rejected-binding-changed-config', '%s: rejected binding changed the configuration' % kind)
     inst = gin.get_configurable(alpha.K)()
     ctx.check((inst.a, inst.b, inst.meth()[1]) == (3, 0, 7), 'accepted-binding-not-injected', '%s: instance has a=%r b=%r meth->%r' % (kind, inst.a, inst.b, inst.meth()[1]))
+  elif kind == 'method-of-configurable-decorated-class':
+    # the class is registered through @gin.configurable (not gin.register): its registered method is still a method of a registered class
+    g = {'gin': gin, '__name__': 'c11cfg'}
+    cname, mname = 'C11CK%d_%s' % (n % 100000, ctx.uid), 'c11cm%d_%s' % (n % 100000, ctx.uid)
+    exec('class %s:\n  def __init__(self, c=0):\n    self.c = c\n  @gin.register\n  def %s(self, a=0):\n    return a\n' % (cname, mname), g)
+    gin.configurable(cname, module='c11cfg')(g[cname])
+    problems = []
+    try:
+      gin.bind_parameter('%s.a' % mname, 3)
+      problems.append('the bare method name %s.a is accepted' % mname)
+    except Exception:  # pylint: disable=broad-except
+      pass
+    try:
+      gin.bind_parameter('%s.%s.a' % (cname, mname), 4)
+    except Exception as e:  # pylint: disable=broad-except
+      problems.append('the class-qualified name %s.%s.a is rejected (%s)' % (cname, mname, type(e).__name__))
+    ctx.check(not problems, 'method-of-configurable-decorated-class-addressable-without-class-name',
+              'class registered with @gin.configurable holding a @gin.register method: ' + '; '.join(problems))
   elif kind == 'dynamic-method-bare-name':
     # a method that became a configurable through a dynamic-registration config (class registered before or not) is still only
     # addressable through its class name
